@@ -307,6 +307,10 @@ def c03_layouts(tier, seed):
         import copy
         Ls.append(Layout(W, [copy.deepcopy(a), copy.deepcopy(b), copy.deepcopy(c)], tag=f"strided array, then dense arrays without stride on u{W}"))
         Ls.append(Layout(W, [copy.deepcopy(c), copy.deepcopy(b), copy.deepcopy(a)], tag=f"dense arrays first, strided array last on u{W}"))
+    # element counts around 8 / 16 / 32 / 64
+    for (W, w, K) in ((16, 1, 9), (32, 1, 17), (64, 1, 33), (64, 1, 64), (128, 1, 65), (128, 2, 64), (128, 1, 128), (64, 3, 17), (32, 4, 8), (128, 7, 16), (100, 3, 33)):
+        for ty in elem_type_variants(w)[:2]:
+            Ls.append(mk(W, (W - K * w if W - K * w < 3 else 2, w, w, K), ty, tag=f"[{ty.decl_ty()}; {K}] on u{W} (count around a power of two)"))
     # fields named like locals / parameters a generated body might use (offset, index, value, temp, ...)
     for W in (64, 128, 48):
         fs = [Field("offset", T_int(8), [(0, 8)], (2, 8, False), "rw"), Field("index", T_uint(4), [(16, 4)], (2, 4, False), "rw"), Field("value", T_uint(4), [(24, 1), (26, 3)], (2, 4, True), "rw"),
